@@ -195,21 +195,13 @@ def _check_reshape_mut(prog, rep, f, writes):
             merged[-1] += g
         else:
             merged.append(list(g))
-    for gi, g in enumerate(merged):
-        vals = {s.target[2]: s for s in g}
-        key = 'matrix-invariant:%s::reshape_mut:branch%d' % (M, gi)
-        if set(vals) != {1, 2}:
-            rep.viol('matrix-invariant', key, 'a branch of reshape_mut writes only one dimension', site_of(f.body))
-            continue
-        r, c = strip_casts(vals[1].value), strip_casts(vals[2].value)
-        last = max(g, key=lambda s: f.cfg.rpo().index(s.bb))
-        guards = [canon_guard(cn, v) for cn, v in f.guards().get(last.bb, [])]
-        raw = f.guards().get(last.bb, [])
+    def check_one(r, c, bb, span, key):
+        raw = f.guards().get(bb, [])
         # case 1: explicit product assert
         prod_ok = any(v is True and tag(cn) == 'bin' and cn[1] == 'Eq' and _is_product_eq(cn, r, c, size) for cn, v in raw)
         if prod_ok:
             rep.ok('matrix-invariant', key, 'both dimensions given: assert_eq!(rows*cols, size) dominates the writes')
-            continue
+            return
         # case 2: one dimension inferred by integer division
         inferred = None
         given = None
@@ -217,15 +209,37 @@ def _check_reshape_mut(prog, rep, f, writes):
             if tag(a) == 'bin' and a[1] == 'Div' and _same_size(a[2], size) and strip_casts(a[3]) == strip_casts(b2):
                 inferred, given = a, b2
         if inferred is None:
-            rep.viol('matrix-invariant', key, 'shape (%s, %s) is written without a check that rows*cols equals the element count' % (show(r), show(c)), site_of(last.span))
-            continue
+            rep.viol('matrix-invariant', key, 'shape (%s, %s) is written without a check that rows*cols equals the element count' % (show(r), show(c)), site_of(span))
+            return
         div_ok = any(v is True and tag(cn) == 'bin' and cn[1] == 'Eq' and _is_divisibility(cn, size, given) for cn, v in raw) or \
             any(v is False and tag(cn) == 'bin' and cn[1] == 'Ne' and _is_divisibility(cn, size, given) for cn, v in raw)
         if div_ok:
             rep.ok('matrix-invariant', key, 'inferred dimension size/%s guarded by a divisibility check' % show(given))
         else:
             rep.viol('matrix-invariant', key, 'reshape_mut infers a dimension as %s with no check that %s divides the element count: e.g. 7 elements reshaped '
-                     'with (-1, 2) become a 3 x 2 matrix holding 7 values (rows*cols != len)' % (show(inferred), show(given)), site_of(last.span))
+                     'with (-1, 2) become a 3 x 2 matrix holding 7 values (rows*cols != len)' % (show(inferred), show(given)), site_of(span))
+
+    n_branch = 0
+    for gi, g in enumerate(merged):
+        vals = {s.target[2]: s for s in g}
+        key = 'matrix-invariant:%s::reshape_mut:branch%d' % (M, n_branch)
+        if set(vals) != {1, 2}:
+            rep.viol('matrix-invariant', key, 'a branch of reshape_mut writes only one dimension', site_of(f.body))
+            n_branch += 1
+            continue
+        r, c = strip_casts(vals[1].value), strip_casts(vals[2].value)
+        last = max(g, key=lambda s: f.cfg.rpo().index(s.bb))
+        # the pair may be computed first as a tuple with one definition per case: `let (r, c) = if .. {(a, b)} else {..}; self.nrows = r; ..`
+        if tag(r) == 'field' and tag(c) == 'field' and r[1] == c[1] and tag(r[1]) == 'local' and (r[2], c[2]) == (0, 1):
+            tdefs = [st for st in f.stores() if st.target == r[1] and tag(st.value) == 'agg' and st.value[1] == 'tuple' and len(st.value[3]) == 2]
+            if tdefs and len(tdefs) == len([st for st in f.stores() if st.target == r[1]]):
+                for st in sorted(tdefs, key=lambda st: f.cfg.rpo().index(st.bb)):
+                    check_one(strip_casts(st.value[3][0]), strip_casts(st.value[3][1]), st.bb, st.span,
+                              'matrix-invariant:%s::reshape_mut:branch%d' % (M, n_branch))
+                    n_branch += 1
+                continue
+        check_one(r, c, last.bb, last.span, key)
+        n_branch += 1
 
 
 def _same_size(t, size):
@@ -483,7 +497,7 @@ def _check_cat(prog, rep, name):
     ix = IdxFunc(prog, f)
     news = [c for c in f.calls() if c.path == M + '::new']
     if len(news) != 1:
-        rep.viol('map-signature', key, 'expected one Matrix::new', site_of(f.body))
+        rep.undecided('map-signature', key, 'result is not built by a single Matrix::new: idiom not read', site_of(f.body), proof=False)
         return
     nw = news[0]
     r, c = strip_casts(nw.args[1]), strip_casts(nw.args[2])
@@ -492,6 +506,7 @@ def _check_cat(prog, rep, name):
     oR = ('field', other, 1, 'usize')
     oC = ('field', other, 2, 'usize')
     problems = []
+    undec = []
     if name == 'hcat':
         gs = [cn for cn, v in f.guards().get(nw.bb, []) if v is True]
         if not any(tag(cn) == 'bin' and cn[1] == 'Eq' and {cn[2], cn[3]} == {R, oR} for cn in gs):
@@ -500,14 +515,14 @@ def _check_cat(prog, rep, name):
             problems.append('result shape is (%s, %s)' % (show(r), show(c)))
         pushes = [p for p in f.calls() if p.path and short(p.path) == 'push' and p.args[0] == nw.args[0]]
         if len(pushes) != 2:
-            problems.append('expected two pushes per row')
+            undec.append('expected two pushes per row')
         else:
             names1 = {R: 'R', C: 'C', oC: 'OC', oR: 'R'}
             srcs = []
             for p in pushes:
                 v = p.args[1]
                 if tag(v) != 'index':
-                    problems.append('pushed value is not an element')
+                    undec.append('pushed value is not an element')
                     continue
                 base = v[1]
                 sym = _symbolise(ix, poly(v[2]), names1)
@@ -532,7 +547,7 @@ def _check_cat(prog, rep, name):
         okd = tag(nv) == 'call' and short(nv[1]) == 'clone' and nv[2][0] == ('field', me, 0, 'linalg::array::vec::Vector')
         oke = len(ext) == 1 and ext[0].args[1] == ('field', other, 0, 'linalg::array::vec::Vector')
         if not (okd and oke):
-            problems.append('data is not self.data.clone() extended by other.data')
+            undec.append('data is not self.data.clone() extended by other.data')
     elif name == 'hrepeat':
         n = other
         total = ('bin', 'Mul', C, n, 'usize')
@@ -541,7 +556,7 @@ def _check_cat(prog, rep, name):
         nv = nw.args[0]
         ext = [e for e in f.calls() if e.path and short(e.path) == 'extend' and e.args[0] == nv]
         if len(ext) != 1:
-            problems.append('expected one extend per (row, copy)')
+            undec.append('expected one extend per (row, copy)')
         else:
             e = ext[0]
             src = e.args[1]
@@ -550,16 +565,18 @@ def _check_cat(prog, rep, name):
             ok = len(loops) == 2 and peq(his[0], poly(R)) and peq(his[1], poly(n)) and tag(src) == 'call' and short(src[1]) == 'index' \
                 and src[2] == (me, loops[0]['item'])
             if not ok:
-                problems.append('rows are not repeated n times in place: source %s' % show(src)[:60])
+                undec.append('row source %s not read' % show(src)[:60])
     elif name == 'vrepeat':
         n = other
         if not (peq(poly(r), pmul(poly(R), poly(n))) and c == C):
             problems.append('result shape is (%s, %s)' % (show(r), show(c)))
         nv = nw.args[0]
         if not (tag(nv) == 'call' and short(nv[1]) == 'repeat' and nv[2][0] == ('field', me, 0, 'linalg::array::vec::Vector') and nv[2][1] == n):
-            problems.append('data is not self.data.repeat(n): %s' % show(nv)[:60])
+            undec.append('data is not of the form self.data.repeat(n): %s' % show(nv)[:60])
     if problems:
         rep.viol('map-signature', key, '%s: %s' % (name, '; '.join(problems)), site_of(f.body))
+    elif undec:
+        rep.undecided('map-signature', key, '%s: assembly idiom not read (%s)' % (name, '; '.join(undec)), site_of(f.body), proof=False)
     else:
         rep.ok('map-signature', key, '%s: shape and element order match the definition' % name)
 
@@ -571,6 +588,16 @@ def _before(f, c1, c2, loop):
 
 
 # =============================================================================== D4
+def _tri(rep, rule, key, ok, recognised, good, bad, site):
+    """ok -> discharged; recognised idiom with a wrong detail -> violation; idiom not read by the rule -> NOT-DECIDED"""
+    if ok:
+        rep.ok(rule, key, good)
+    elif recognised:
+        rep.viol(rule, key, bad, site)
+    else:
+        rep.undecided(rule, key, 'construction idiom not read by this rule (%s not established)' % good[:60], site, proof=False)
+
+
 def d4_constructors(prog, rep):
     # eye: zeros(d, d); data[i*d + i] = 1 for i in 0..d
     f = prog.func(M + '::eye')
@@ -588,7 +615,7 @@ def d4_constructors(prog, rep):
             ok = len(its) == 1 and peq(poly(s.target[2]), padd(pmul(poly(its[0]), poly(d)), poly(its[0]))) and _c(s.value) == 1.0 \
                 and ix.item_range(its[0]) and pconst(ix.item_range(its[0])[0]) == 0 and peq(ix.item_range(its[0])[1], poly(d)) \
                 and s.target[1] == ('field', rets[0], 0, 'linalg::array::vec::Vector')
-        (rep.ok if ok else rep.viol)('constructor', key, 'eye(d): zeros(d,d) with data[i*d+i] = 1 for i in 0..d' if ok else 'eye does not set exactly the diagonal of a d x d zero matrix to 1', site_of(f.body))
+        _tri(rep, 'constructor', key, ok, len(st) == 1, 'eye(d): zeros(d,d) with data[i*d+i] = 1 for i in 0..d', 'eye does not set exactly the diagonal of a d x d zero matrix to 1', site_of(f.body))
     # diag_matrix
     f = prog.func(U + 'diag_matrix')
     key = 'constructor:%sdiag_matrix' % U
@@ -606,7 +633,7 @@ def d4_constructors(prog, rep):
             zero_nn = any(tag(z) == 'call' and z[1] == 'std::vec::from_elem' and _c(z[2][0]) == 0.0 and peq(poly(z[2][1]), pmul(poly(n), poly(n))) for z in subterms(base))
             ok = len(its) == 1 and peq(poly(s.target[2]), padd(pmul(poly(its[0]), poly(n)), poly(its[0]))) and s.value == ('index', a, its[0]) \
                 and zero_nn and peq(ix.item_range(its[0])[1], poly(n)) and f.return_values() == [base]
-        (rep.ok if ok else rep.viol)('constructor', key, 'diag_matrix(a): n*n zeros with [i*n+i] = a[i]' if ok else 'diag_matrix does not place a[i] at (i,i) of an n x n zero matrix', site_of(f.body))
+        _tri(rep, 'constructor', key, ok, len(st) == 1 and tag(st[0].value) == 'index', 'diag_matrix(a): n*n zeros with [i*n+i] = a[i]', 'diag_matrix does not place a[i] at (i,i) of an n x n zero matrix', site_of(f.body))
     # toeplitz
     f = prog.func(U + 'toeplitz')
     key = 'constructor:%stoeplitz' % U
@@ -632,7 +659,7 @@ def d4_constructors(prog, rep):
                     rr = [ix.item_range(i) for i in its]
                     ok = ok and all(r and pconst(r[0]) == 0 and peq(r[1], poly(n)) for r in rr)
                 why = 'value %s at %s' % (show(v)[:60], pshow(poly(s.target[2]), show)[:80])
-        (rep.ok if ok else rep.viol)('constructor', key, 'toeplitz(x)[i*n+j] = x[|i-j|]' if ok else 'toeplitz is not (i,j) <- x[|i-j|] (%s)' % why, site_of(f.body))
+        _tri(rep, 'constructor', key, ok, len(st) == 1 and len(ix.items_in(poly(st[0].target[2]))) == 2, 'toeplitz(x)[i*n+j] = x[|i-j|]', 'toeplitz is not (i,j) <- x[|i-j|] (%s)' % why, site_of(f.body))
     # vandermonde: for v in x, for i in 0..n: push v^i
     f = prog.func(U + 'vandermonde')
     key = 'constructor:%svandermonde' % U
@@ -643,16 +670,18 @@ def d4_constructors(prog, rep):
         n = ('arg', 2, f.names.get(2))
         pushes = [c for c in f.calls() if c.path and short(c.path) == 'push']
         ok = False
+        recog = False
         if len(pushes) == 1:
             v = pushes[0].args[1]
             loops = sorted([li for li in f.loop_info() if pushes[0].bb in li['blocks'] and li['item'] is not None], key=lambda li: -len(li['blocks']))
             if len(loops) == 2 and tag(v) == 'call' and v[1].endswith('::powi'):
+                recog = True
                 outer, inner = loops
                 base, e = v[2]
                 okb = base == outer['item'] and _iter_over(outer['iter'], x)
                 oke = strip_casts(e) == inner['item'] and inner['iter'] == ('range', ('const', 'usize', 0), n)
                 ok = okb and oke
-        (rep.ok if ok else rep.viol)('constructor', key, 'vandermonde: row per x[r], columns x[r]^c for c in 0..n' if ok else 'vandermonde does not push x[r]^c row by row for c in 0..n', site_of(f.body))
+        _tri(rep, 'constructor', key, ok, recog, 'vandermonde: row per x[r], columns x[r]^c for c in 0..n', 'vandermonde does not push x[r]^c row by row for c in 0..n', site_of(f.body))
     # design: ones(rows) ++ x (column-major) -> col_to_row_major(.., rows)
     f = prog.func(U + 'design')
     key = 'constructor:%sdesign' % U
@@ -667,7 +696,7 @@ def d4_constructors(prog, rep):
             ones = tag(buf) == 'call' and buf[1] == 'std::vec::from_elem' and _c(buf[2][0]) == 1.0 and buf[2][1] == rows
             ext = [c for c in f.calls() if c.path and short(c.path) == 'extend_from_slice' and c.args[0] == buf and c.args[1] == x]
             ok = ones and len(ext) == 1
-        (rep.ok if ok else rep.viol)('constructor', key, 'design(x, rows): column of ones followed by x\'s columns, converted to row-major' if ok else 'design is not [1 | x]', site_of(f.body))
+        _tri(rep, 'constructor', key, ok, len(rets) == 1 and tag(rets[0]) == 'call' and rets[0][1] == U + 'col_to_row_major', 'design(x, rows): column of ones followed by x\'s columns, converted to row-major', 'design is not [1 | x]', site_of(f.body))
     rep.floor('constructor', 5, 'eye, diag_matrix, toeplitz, vandermonde, design')
 
 
@@ -1017,7 +1046,7 @@ SHAPE_OPS = ['t', 't_mut', 'reshape', 'reshape_mut', 'hcat', 'vcat', 'hrepeat', 
              'to_vec', 'flatten', 'shape', 'size']
 
 
-def d8_oblivious(prog, rep):
+def d8_oblivious(prog, rep, only=None, rule='data-oblivious'):
     """Shape operations move elements; what they do may depend on the shapes, never on the element values.  A branch on a floating-point
     comparison or on a predicate that reads the data (is_symmetric, close_to, ...) makes the operation value dependent -- e.g. an
     "already symmetric, nothing to do" shortcut in t_mut is wrong for matrices that are symmetric only up to the predicate's tolerance."""
@@ -1039,13 +1068,17 @@ def d8_oblivious(prog, rep):
                 changed = True
     n = 0
     keys = [M + '::' + nm for nm in SHAPE_OPS] + [U + 'transpose', U + 'row_to_col_major', U + 'col_to_row_major']
+    # constructors: the values written depend on the arguments, the control flow (which entries are written) must not
+    keys += [U + 'vandermonde', U + 'diag_matrix', U + 'toeplitz', U + 'design', M + '::eye', M + '::zeros', M + '::ones']
+    if only is not None:
+        keys = only
     for k in keys:
         f = prog.func(k)
         if f is None:
             continue
         n += 1
         rep.touch(k)
-        key = 'data-oblivious:%s' % k
+        key = '%s:%s' % (rule, k)
         bad = []
         for gl in f.guards().values():
             for c, v in gl:
@@ -1055,8 +1088,9 @@ def d8_oblivious(prog, rep):
                     if tag(z) == 'call' and z[1] in datapred:
                         bad.append('data-reading predicate %s' % short(z[1]))
         if bad:
-            rep.viol('data-oblivious', key, '%s branches on %s: a shape operation must do the same thing for every matrix of a given shape '
+            rep.viol(rule, key, '%s branches on %s: a shape operation / constructor must do the same thing for every argument of a given shape '
                      '(a tolerant predicate is true for matrices the shortcut is wrong for)' % (short(k), sorted(set(bad))[0]), site_of(f.body))
         else:
-            rep.ok('data-oblivious', key, 'control flow depends on shapes only')
-    rep.floor('data-oblivious', 10, 'shape operations of Matrix and the slice-level layout helpers')
+            rep.ok(rule, key, 'control flow depends on shapes only')
+    if only is None:
+        rep.floor('data-oblivious', 10, 'shape operations of Matrix and the slice-level layout helpers')
